@@ -282,12 +282,17 @@ def _others_alive(ext, grace=5.0):
     """losers_dead: names of the member processes, other than `ext`, that are still alive.  terminate() is
     asynchronous, so the processes get a grace period to disappear."""
     import multiprocessing
-    deadline = time.time() + grace
+    # The grace period is measured in *observed* time: every pause counts for at most 50 ms, so that a stall of the
+    # whole machine (during which the dying processes cannot make progress either) does not use it up.
+    observed, last = 0.0, time.time()
     while True:
         others = [c.name for c in multiprocessing.active_children() if ext is None or c.pid != ext.pid]
-        if not others or time.time() > deadline:
+        if not others or observed > grace:
             return others
         time.sleep(0.005)
+        now = time.time()
+        observed += min(now - last, 0.05)
+        last = now
 
 
 def _worker(cfg, wfd):
@@ -467,6 +472,10 @@ class _Job:
         self.records = []
         self.last_progress = time.time()
         self.t_start = self.last_progress
+        # time without progress as *observed* by the monitoring loop: one iteration counts for at most 1 s, so that a
+        # stall of the whole machine is not mistaken for a blocked call
+        self.idle_observed = 0.0
+        self.last_seen = self.last_progress
         self.blocked = None          # None | description
         self.finished = False
 
@@ -486,16 +495,21 @@ class _Job:
             except ValueError:
                 self.records.append({"step": "garbled", "raw": line[:200].decode("latin1")})
             self.last_progress = time.time()
+            self.idle_observed = 0.0
+            self.last_seen = self.last_progress
 
     def check_blocked(self):
-        idle = time.time() - self.last_progress
+        now = time.time()
+        self.idle_observed += min(now - self.last_seen, 1.0)
+        self.last_seen = now
+        idle = self.idle_observed
         if idle >= HARD_S:
             self.blocked = "no progress for %.0f s" % idle
         elif idle >= BLOCK_S:
             # sampled twice, to be sure no member is between fork and exec of its work
             if _live_descendants(self.pid, self.pid) == 0:
                 time.sleep(0.2)
-                if _live_descendants(self.pid, self.pid) == 0 and time.time() - self.last_progress >= BLOCK_S:
+                if _live_descendants(self.pid, self.pid) == 0:
                     self.blocked = "no progress for %.0f s and no member process alive" % idle
         return self.blocked is not None
 
